@@ -160,7 +160,7 @@ theorem pack_existing_dead {w : WM} {iss : List Handle} {s : WS} (hi : Inv ⟨w,
     have hnp : first.entity ∉ createHandles (w.destroyNowU info first.entity).1.buffers := by
       rw [hctl.buffers]; exact valid_not_pending (c := ⟨w, iss⟩) hi hb hv
     have hm1 := mark_refines hcore.1 hcore.2 hk hrg hnp
-    have hm2 := mark_rel_always hcore.1 hcore.2 hk hrg
+    have hm2 := mark_rel_always hcore.1 hcore.2 hk hrg hnp
     refine ⟨hm1.1, ?_, hcb⟩
     exact rel_to_frame (mk := true) hklt hm2 hfr hsp.1 hmk
 
